@@ -22,12 +22,16 @@ pub mod h_inputref {
 pub mod h_recover {
     include!(concat!(env!("CHUMSKY_VERIF_DIR"), "/h_recover.rs"));
 }
+pub mod h_pratt {
+    include!(concat!(env!("CHUMSKY_VERIF_DIR"), "/h_pratt.rs"));
+}
 pub fn register_all(r: &mut Vec<(&'static str, fn())>) {
     h_comb::register(r);
     h_prim::register(r);
     h_comb2::register(r);
     h_iter::register(r);
     h_top::register(r);
+    h_pratt::register(r);
     h_recover::register(r);
     h_inputref::register(r);
     h_top2::register(r);
